@@ -28,7 +28,7 @@ PROPS = {
                 rule="seeded random models x 2-6 assumption lists per solver (all predicate kinds, duplicates, implied, directly contradictory, out-of-domain constants); verdict/core/restoration judged against the enumerator; non-trivial = >=2 solutions or >=1 conflict"),
     "C12": dict(kind="lib", level="exploration", modes=[("c12", 4000, 60000)], floor=500,
                 rule="seeded random models; after every posting prefix the reported bounds of every variable, 3 random views and literal values are compared with the hull of the prefix model's solutions; non-trivial = some prefix tightened a bound"),
-    "C07": dict(kind="lib", level="exploration", modes=[("c07", 3000, 24000)], floor=150,
+    "C07": dict(kind="lib", level="exploration", modes=[("c07", 3000, 24000)], floor=150, case_timeout=90,
                 rule="seeded models near the phase transition, each solved under K configurations (quick 8, thorough 40: resolver, minimisation, restart sequence/intervals/coefficients, learned-nogood limits/threshold/sorting, tiny max activity, seed, brancher); solution set of every configuration compared with the enumerator; non-trivial = some configuration had >=3 conflicts"),
     "C08": dict(kind="lib", level="exploration", modes=[("c08", 1800, 2400)], floor=300,
                 rule="cumulative models (70% canonical, 30% extended regime: zero durations/usages, usage > capacity, negative starts, scaled views, repeated variables, holes) with side constraints; quick: 6 option tuples per model walking the 144-tuple space with stride 37 so that a run covers all 144, thorough: all 144 per model; solution set vs time-point definition, explanation judge on every cumulative event; non-trivial = >=2 solutions or cumulative events observed"),
